@@ -216,3 +216,62 @@ fn u4_point_split_cleared() {
     assert!(st.point_split.is_empty(), "C11 scratch buffer is cleared after every use, including failed lines");
     std::mem::forget(st);
 }
+
+fn any_game_mode() -> GameMode {
+    let k: u8 = kani::any();
+    match k % 4 {
+        0 => GameMode::Osu,
+        1 => GameMode::Taiko,
+        2 => GameMode::Catch,
+        _ => GameMode::Mania,
+    }
+}
+
+//@ obl: id=U3.decode.map_clamps harness=u3_decoded_map_clamps props=C06 tier=quick kind=proof
+//@ fns: <Beatmap as From<BeatmapState>>::from (clamp block)
+//@ bound: loop-free on an object-free state (unwind 4 certifies the empty sort loops); every f32 / f64 bit pattern of the six difficulty fields, all four modes
+//@ clause: every decoded map has, for non-NaN inputs, HP / OD / AR in [0,10], CS in [0,10] (mania: [1,18]), slider multiplier in [0.4, 3.6] and tick rate in [0.5, 8]; the mode is the decoded one and a decoded map is never marked as a convert
+#[kani::proof]
+#[kani::unwind(4)]
+fn u3_decoded_map_clamps() {
+    let mut st = <BeatmapState as DecodeState>::create(14);
+    st.mode = any_game_mode();
+    let (hp, cs, od, ar): (f32, f32, f32, f32) = (kani::any(), kani::any(), kani::any(), kani::any());
+    let (sm, tr): (f64, f64) = (kani::any(), kani::any());
+    st.difficulty.hp_drain_rate = hp;
+    st.difficulty.circle_size = cs;
+    st.difficulty.overall_difficulty = od;
+    st.difficulty.approach_rate = ar;
+    st.difficulty.slider_multiplier = sm;
+    st.difficulty.slider_tick_rate = tr;
+    let mode = st.mode;
+    let map = Beatmap::from(st);
+    assert!(map.mode == mode && !map.is_convert, "C06 mode kept, decoded maps are not converts");
+    if !hp.is_nan() {
+        assert!(map.hp >= 0.0 && map.hp <= 10.0, "C06 HP clamped to [0,10]");
+    }
+    if !od.is_nan() {
+        assert!(map.od >= 0.0 && map.od <= 10.0, "C06 OD clamped to [0,10]");
+    }
+    if !ar.is_nan() {
+        assert!(map.ar >= 0.0 && map.ar <= 10.0, "C06 AR clamped to [0,10]");
+    }
+    if !cs.is_nan() {
+        if mode == GameMode::Mania {
+            assert!(map.cs >= 1.0 && map.cs <= 18.0, "C06 mania key count clamped to [1,18]");
+        } else {
+            assert!(map.cs >= 0.0 && map.cs <= 10.0, "C06 CS clamped to [0,10]");
+        }
+    }
+    if !sm.is_nan() {
+        assert!(map.slider_multiplier >= 0.4 && map.slider_multiplier <= 3.6, "C06 slider multiplier clamped to [0.4,3.6]");
+    }
+    if !tr.is_nan() {
+        assert!(map.slider_tick_rate >= 0.5 && map.slider_tick_rate <= 8.0, "C06 slider tick rate clamped to [0.5,8]");
+    }
+    std::mem::forget(map);
+}
+
+// NOTE: an obligation on the tandem-sort call site of `From<BeatmapState>` (3 objects of symbolic order: sorted, one sound per
+// object, sounds stay paired) did not finish within 15 min (moving HitObject enums through std's sort); not registered.
+// The sorter itself is proved in Verus (U1.tandem.*) and exercised with new_stable on 5 keys (U1.tandem.kani.n5).
